@@ -207,6 +207,49 @@ Theorem C04_cmp_lex_correct :
 Proof. exact cmp_lex_correct. Qed.
 Print Assumptions C04_cmp_lex_correct.
 
+(* if hex[:n]==0 goto l0 else goto l1 (and if0 / if1) for ALL operands: xz / xnz = the exits taken for zero / non-zero *)
+Theorem C04_compose_if :
+  forall ww sg img ch xz xnz,
+    ch_rev ch = false -> ch_fall ch = xz ->
+    chain_static ww img ch = true ->
+    length (cvars ch) = 1%nat ->
+    pro_check ww sg img ch [] = true ->
+    (forall i, (i < ch_n ch)%nat -> forallb (digit_check ww sg img ch (dspec_if xnz) i) (digit_dom ch i) = true) ->
+    epi_all ww sg img ch = true ->
+    forall a, a < 2 ^ (ch_bits ch * N.of_nat (ch_n ch)) ->
+    block_correct ww sg img (ch_block ch) (v_if (ch_bits ch * N.of_nat (ch_n ch)) xz xnz) [a].
+Proof. exact compose_if. Qed.
+Print Assumptions C04_compose_if.
+
+(* digit-wise macros that change both operands (hex.xor_zero: F = N.lxor, G = 0) *)
+Theorem C04_compose_digitwise2 :
+  forall ww sg img ch f g F G,
+    (forall x y j, dg (ch_bits ch) j (F x y) = f (dg (ch_bits ch) j x) (dg (ch_bits ch) j y)) ->
+    (forall x y j, dg (ch_bits ch) j (G x y) = g (dg (ch_bits ch) j x) (dg (ch_bits ch) j y)) ->
+    ch_rev ch = false -> ch_fall ch = 0 ->
+    chain_static ww img ch = true ->
+    length (cvars ch) = 2%nat ->
+    pro_check ww sg img ch [] = true ->
+    (forall i, (i < ch_n ch)%nat -> forallb (digit_check ww sg img ch (dspec_map22 f g) i) (digit_dom ch i) = true) ->
+    epi_all ww sg img ch = true ->
+    forall a b, block_correct ww sg img (ch_block ch) (v_map22 F G) [a; b].
+Proof. exact compose_map22. Qed.
+Print Assumptions C04_compose_digitwise2.
+
+(* one operand, digit-wise (hex.zero: F = f = fun _ => 0) *)
+Theorem C04_compose_digitwise1 :
+  forall ww sg img ch f F,
+    (forall x j, dg (ch_bits ch) j (F x) = f (dg (ch_bits ch) j x)) ->
+    ch_rev ch = false -> ch_fall ch = 0 ->
+    chain_static ww img ch = true ->
+    length (cvars ch) = 1%nat ->
+    pro_check ww sg img ch [] = true ->
+    (forall i, (i < ch_n ch)%nat -> forallb (digit_check ww sg img ch (dspec_map1 f) i) (digit_dom ch i) = true) ->
+    epi_all ww sg img ch = true ->
+    forall a, block_correct ww sg img (ch_block ch) (v_map1 F) [a].
+Proof. exact compose_map1. Qed.
+Print Assumptions C04_compose_digitwise1.
+
 (* the arithmetic hypotheses are satisfiable: 0xFF + 0x01 ripples into 0x00, 0xFFFFFFFFFFFFFFFF + 1 wraps to 0 *)
 Example C04_ripple_example :
   ripple 16 [15; 15] [1; 0] 0 = [0; 0] /\ value 16 [15; 15] = 255 /\
